@@ -88,6 +88,10 @@ pub trait Check: Sync {
     fn extra(&self, _tier: Tier, _seed: u64, _stats: &Stats) -> Vec<(String, String, Value)> {
         Vec::new()
     }
+    /// shrinking budget (checks whose failing cases cost seconds of real time use a small one)
+    fn max_shrink_iters(&self) -> u32 {
+        4096
+    }
     /// called once after the search, before the evidence is written (extra coverage keys)
     fn finish(&self, _stats: &Stats) {}
     /// what is kept in the `samples` list for one case (default: the case itself)
@@ -379,7 +383,7 @@ pub fn run_check<C: Check>(check: &C, tier: Tier, seed: u64) -> i32 {
                         cfg.cases = u32::try_from(per_shard).unwrap_or(u32::MAX);
                         cfg.failure_persistence = None;
                         cfg.rng_seed = RngSeed::Fixed(mix(seed, id, shard as u64));
-                        cfg.max_shrink_iters = 4096;
+                        cfg.max_shrink_iters = check.max_shrink_iters();
                         cfg.max_global_rejects = 1_000_000;
                         cfg.verbose = 0;
                         let mut runner = TestRunner::new(cfg);
